@@ -28,6 +28,8 @@ var checks = map[string]entry{
 	"C08": {"exploration", mon.CheckC08},
 	"C09": {"exploration", mon.CheckC09},
 	"C10": {"exploration", mon.CheckC10},
+	"C11": {"fault_enumeration", mon.CheckC11},
+	"C12": {"fault_enumeration", mon.CheckC12},
 	"C15": {"exploration", mon.CheckC15},
 	"C16": {"exploration", mon.CheckC16},
 	"C18": {"exploration", mon.CheckC18},
